@@ -16,10 +16,10 @@ add("C05","exploration",
 add("C03","exploration",
  "runtime monitoring: exhaustive enumeration of selection vectors x context parameters through the real cat reader in worker processes, seeded regex/file generator, and real dgrep --plain runs (serverless + SSH, incl. pairs re-using a pattern with the opposite flag on one server); oracle = 25-line reference model of grep context semantics + Go regexp on the bare line",
  "Exhaustive up to the line bound stated in the evidence (all selection vectors x before/after/max in {0,1,2,3,5,n+1} x invert x final newline), sampled beyond it (files to 5000 lines, generated RE2 patterns, e2e).",
- "Trusted: Go regexp, the reference model; no-op patterns are not combined with --invert.",
+ "Trusted: Go regexp, the reference model; no-op patterns select every line with and without --invert.",
  "DESIGN.md §2 C03")
 add("C01","exploration",
- "runtime monitoring: seeded byte-class content generator; real dcat binary (serverless and over SSH against in-process servers, plain and REMOTE-record mode, gzip/zstd containers, three MaxLineLength values; consumers that stall at the start or when only the tail of the file is outstanding); oracle = byte equality of stdout with the content after the only permitted transformation; deviations are classified against narrow known-finding predictors",
+ "runtime monitoring: seeded byte-class content generator; real dcat binary (serverless and over SSH against in-process servers, plain and REMOTE-record mode, gzip/zstd containers, three MaxLineLength values; consumers that stall at the start or when only the tail of the file is outstanding; reads queued behind a cat limit of 1); oracle = byte equality of stdout with the content after the only permitted transformation; deviations are classified against narrow known-finding predictors",
  "Held on the generated files counted in the evidence (byte classes x containers x M x transport cells); files up to 2 MiB (thorough).",
  "Trusted: compress/gzip, DataDog/zstd writer for test inputs; clients must run with --logLevel error; known findings c01.* are recognised by exact prediction only.",
  "DESIGN.md §2 C01")
@@ -34,12 +34,12 @@ add("C16","exploration",
  "Trusted: the SGR-strip regexp; both sides are stripped when the message itself contains ESC.",
  "DESIGN.md §2 C16")
 add("C08","exploration",
- "runtime monitoring: seeded filesystem-layout/rule/request generator (per-user, default, empty and other users' rule lists; every symlink re-pointed between two sessions of one server process; a restricted user grepping while another user reads denied files on the same server: no foreign line may reach him); HasFilePermission verdicts observed in worker processes on real directory trees, and real dcat sessions over SSH against servers configured with the rules (unique content token per file); oracle = independent statement of the rule semantics on the EvalSymlinks+Abs path",
+ "runtime monitoring: seeded filesystem-layout/rule/request generator (per-user, default, empty and other users' rule lists; every symlink re-pointed between two sessions of one server process; a restricted user grepping while another user reads denied files on the same server: no foreign line may reach him; requests with '..' behind directory links, judged by what is served); HasFilePermission verdicts observed in worker processes on real directory trees, and real dcat sessions over SSH against servers configured with the rules (unique content token per file); oracle = independent statement of the rule semantics on the EvalSymlinks+Abs path",
  "Held on the generated (tree, rules, request) triples counted in the evidence; both directions (allowed served, denied discloses nothing).",
  "Trusted: filepath.EvalSymlinks/Abs/Glob, Go regexp; static layouts (no TOCTOU claim).",
  "DESIGN.md §2 C08")
 add("C09","exploration",
- "runtime monitoring: seeded authorized_keys/credential generator (incl. lines of 4-13 KB; servers with the test-mode switch spelled off); real SSH handshakes (x/crypto/ssh client in the harness, chosen source addresses) against an in-process dtail server whose key files are rewritten between attempts; oracle = the statement's acceptance rule; health sessions are fed commands and their byte stream is scanned for file content",
+ "runtime monitoring: seeded authorized_keys/credential generator (incl. lines of 4-13 KB; servers with the test-mode switch spelled off); real SSH handshakes (x/crypto/ssh client in the harness, chosen source addresses incl. ::1) against in-process dtail servers (one bound to 127.0.0.1, one to all addresses with unresolvable allow-list entries) whose key files are rewritten between attempts; oracle = the statement's acceptance rule; health sessions are fed commands and their byte stream is scanned for file content",
  "Held on the generated key files (incl. multi-revision sequences with preserved/older mtime), the full password x user x source address grid, and the health sessions counted in the evidence.",
  "Trusted: x/crypto/ssh (shared by harness and subject); CRLF and junk lines are outside 'well-formed'.",
  "DESIGN.md §2 C09")
@@ -49,7 +49,7 @@ add("C14","exploration",
  "Trusted: x/crypto/ssh, porcupine v1.3.0; 'served' = answers a global request after authentication; client-side closes may linearize any time after their call.",
  "DESIGN.md §2 C14")
 add("C10","exploration",
- "runtime monitoring: grammar-aware hostile-input generator; inputs are applied to fresh real ServerHandlers in crash-isolated worker processes (input logged before application; each process starts cold with simultaneous many-file requests under a 10-rule permission list; mapreduce sessions over compressed files whose stream breaks and with the generic log format) and sent over SSH to a real server while a canary session of another user and health logins observe liveness; oracle = process survival, canary stream intact, health answers OK",
+ "runtime monitoring: grammar-aware hostile-input generator; inputs are applied to fresh real ServerHandlers in crash-isolated worker processes (input logged before application; each process starts cold with simultaneous many-file requests under a 10-rule permission list; mapreduce sessions over compressed files whose stream breaks and with every log format name of the parser factory) and sent over SSH to a real server while a canary session of another user and health logins observe liveness; oracle = process survival, canary stream intact, health answers OK",
  "Held on the hostile inputs counted in the evidence (command x argument count x fault-class cells); no behavioural expectation beyond survival and an error/close for the offender.",
  "Trusted: the harness SSH client; crash attribution names the culprit and its five predecessors.",
  "DESIGN.md §2 C10")
@@ -59,7 +59,7 @@ add("C13","exploration",
  "Trusted: /proc fd view; a blocked cat reader keeps its file open; hook call sites srv.lim.* (the /proc observation decides, the trace cross-checks).",
  "DESIGN.md §2 C13")
 add("C02","exploration",
- "runtime monitoring: real dcat/dgrep (serverless and over SSH) with a harness-owned, size-limited stdout pipe read by seeded pacing programs (fast, slow, stalls of 0.15-16 s placed around the queue/pipe/window boundaries), sessions of killed clients before judged ones, files rotated or unlinked during a slow read, race-detector pass in the thorough tier; every line carries (file, sequence number, CRC), some are 40-330 KB long; oracle = exactly-once in-order delivery per file, exit status 0, termination by a logical-time hang rule; hook traces attribute losses of multi-command sessions to the recorded finding",
+ "runtime monitoring: real dcat/dgrep (serverless and over SSH) with a harness-owned, size-limited stdout pipe read by seeded pacing programs (fast, slow, stalls of 0.15-16 s placed around the queue/pipe/window boundaries), sessions of killed clients before judged ones, files rotated or unlinked during a slow read, grep sessions that select nothing for seconds while a 350 MB read goes on, race-detector pass in the thorough tier; every line carries (file, sequence number, CRC), some are 40-330 KB long; oracle = exactly-once in-order delivery per file, exit status 0, termination by a logical-time hang rule; hook traces attribute losses of multi-command sessions to the recorded finding",
  "Held on the sessions counted in the evidence (pacing x size x files x limit x transport cells, distinct hook-order signatures).",
  "Trusted: /proc-based idle detection; finding c02.cmd-race is only accepted for multi-command sessions with suffix-only loss and a trace showing shutdown before a later command.",
  "DESIGN.md §2 C02")
@@ -74,17 +74,17 @@ add("C06","exploration",
  "Trusted: hook call sites for attribution only (the CSV decides); c06.cmd-race (a read command received after the aggregator and session had finished) is accepted only with that trace pattern, no excess, and deficits on servers showing it; files of received commands missing from a result are violations.",
  "DESIGN.md §2 C06")
 add("C04","exploration",
- "runtime monitoring: the real tail reader follows real files in worker processes while the harness appends through seeded write() chunkers, starting only once the reader's descriptor offset (/proc fdinfo) shows it is positioned; delivered lines (content, running number, transmission percentage) are checked against the appended lines; real dtail (serverless and over SSH) for a sample, and 10 s follows with a continuous writer and a delay at the hook point where the follower sees EOF (housekeeping rounds), and follows interrupted by SIGINT with a slow consumer (order of the delivered lines); other sessions that end early or are killed run on the followed server meanwhile; one client following several files at once",
+ "runtime monitoring: the real tail reader follows real files in worker processes while the harness appends through seeded write() chunkers (incl. consumers that keep up for hundreds of lines and then fall behind by a handful), starting only once the reader's descriptor offset (/proc fdinfo) shows it is positioned; delivered lines (content, running number, transmission percentage) are checked against the appended lines; real dtail (serverless and over SSH) for a sample, and 10 s follows with a continuous writer and a delay at the hook point where the follower sees EOF (housekeeping rounds), and follows interrupted by SIGINT with a slow consumer (order of the delivered lines); other sessions that end early or are killed run on the followed server meanwhile; one client following several files at once",
  "Held on the follows counted in the evidence (chunkers x sizes x queue regimes; drops actually provoked in regime b are counted).",
  "Trusted: /proc fdinfo offsets; regime a = queue can never be full; regime b without filter; append-only writers.",
  "DESIGN.md §2 C04")
 add("C15","fault_enumeration",
- "runtime monitoring with fault injection: kill points of the real dmap are enumerated (every out.* hook event of a reference run is re-run with SIGKILL delivered exactly there; under strace SIGKILL is injected at the N-th syscall touching the four paths and the position hit is read back; write faults: from the N-th write on every write to those paths fails with ENOSPC); the non-cumulative client of the server's continuous jobs runs in worker processes, is cancelled at various points and watched the same way, after each kill the on-disk state is judged; a watcher re-reads the outfile continuously during un-killed runs",
+ "runtime monitoring with fault injection: kill points of the real dmap are enumerated (every out.* hook event of a reference run is re-run with SIGKILL delivered exactly there; under strace SIGKILL is injected at the N-th syscall touching the four paths and the position hit is read back; write faults: from the N-th write on every write to those paths fails with ENOSPC); the non-cumulative client of the server's continuous jobs runs in worker processes, is cancelled at various points and watched the same way, after each kill the on-disk state is judged; a watcher re-reads the outfile continuously during un-killed runs; some scenarios put the outfile on another filesystem than the temporary directory",
  "All listed hook kill points of the quick scenarios are hit (counts in the evidence); syscall-level positions are enumerated for the small scenarios and listed as hit / not hit.",
  "Trusted: strace's path filter and injection; hook call sites out.* (strace tier is hook-free); a kill inside one write(2) is not separately reachable.",
  "DESIGN.md §2 C15")
 add("C17","exploration",
- "runtime monitoring: seeded known_hosts layouts and prompt scripts; the real dcat/dtail run against harness-controlled SSH servers with chosen (and changing) host keys, known_hosts edited while the client is connected, known_hosts that cannot be parsed; oracle = per server, shell opened and command bytes received (server-side event log) iff trusted, plus a structural comparison of known_hosts before and after and a prompt-free second run",
+ "runtime monitoring: seeded known_hosts layouts and prompt scripts (answers, no answer, end of input at once or after a non-answer); the real dcat/dtail run against harness-controlled SSH servers with chosen (and changing) host keys, known_hosts edited while the client is connected, known_hosts that cannot be parsed; oracle = per server, shell opened and command bytes received (server-side event log) iff trusted, plus a structural comparison of known_hosts before and after and a prompt-free second run",
  "Held on the cases counted in the evidence (entry kinds x answers; reconnect cases with a changed host key).",
  "Trusted: x/crypto/ssh/knownhosts for generating test entries (also used by the subject); clients run with --logger none.",
  "DESIGN.md §2 C17")
